@@ -1,0 +1,44 @@
+//go:build verif
+
+package shutterservice
+
+import (
+	"context"
+
+	"github.com/jackc/pgx/v4/pgxpool"
+
+	"github.com/shutter-network/rolling-shutter/rolling-shutter/keyper/epochkghandler"
+	"github.com/shutter-network/rolling-shutter/rolling-shutter/medley/broker"
+	syncevent "github.com/shutter-network/rolling-shutter/rolling-shutter/medley/chainsync/event"
+)
+
+// Verification hooks (build tag "verif"): constructors and thin wrappers that give the
+// runtime-monitoring harness access to unexported fields and methods. No behaviour is added.
+
+func VerifNewKeyper(
+	config *Config,
+	dbpool *pgxpool.Pool,
+	triggerCh chan *broker.Event[*epochkghandler.DecryptionTrigger],
+	registrySyncer *RegistrySyncer,
+	multiEventSyncer *MultiEventSyncer,
+) *Keyper {
+	return &Keyper{
+		config:                   config,
+		dbpool:                   dbpool,
+		registrySyncer:           registrySyncer,
+		multiEventSyncer:         multiEventSyncer,
+		decryptionTriggerChannel: triggerCh,
+	}
+}
+
+func (kpr *Keyper) VerifProcessNewBlock(ctx context.Context, ev *syncevent.LatestBlock) error {
+	return kpr.processNewBlock(ctx, ev)
+}
+
+func VerifNewDecryptionKeySharesHandler(dbpool *pgxpool.Pool) *DecryptionKeySharesHandler {
+	return &DecryptionKeySharesHandler{dbpool: dbpool}
+}
+
+func VerifNewDecryptionKeysHandler(dbpool *pgxpool.Pool) *DecryptionKeysHandler {
+	return &DecryptionKeysHandler{dbpool: dbpool}
+}
